@@ -141,6 +141,9 @@ class Parser:
         if define:
             toks = self.parser_work(define)
             main = utils.filter_set_toks(toks, 0, defs.LanguageToken)
+            # text of the definitions is discarded: this includes extracted
+            # flows like footnotes (positions refer to the definition text)
+            self.extracted = []
         main += self.parser_work(latex)
 
         if extract:
